@@ -84,6 +84,7 @@ func main() {
 			continue
 		}
 		env := &sim.Env{Disk: disk, Tier: req.Tier, Known: req.Known, WorkerBin: self, LogEvents: req.Log}
+		env.Tick = func() { emit(event{Ev: "tick"}) }
 		prop := req.Prop
 		if req.Case != nil {
 			prop = req.Case.Prop
